@@ -158,7 +158,7 @@ IPv6::IPv6(const uint8_t* buffer, uint32_t total_sz) {
                         if (opt_size != 4) {
                             throw malformed_packet();
                         }
-                        actual_payload_length = stream.read_be<uint32_t>();
+                        actual_payload_length = options.read_be<uint32_t>();
                         break;
                     }
                     options.skip(opt_size);
